@@ -11,17 +11,26 @@
    All theorems are for every configuration, every cutoff and every input.  The functions are pure:
    T is not modified.
 
-   Abstractions (exactly): (a) mzd_addmul is taken by its specification C + A*B (property C01);
-   (b) in the extracted models the <=64-row/column word base cases and the Four-Russians middle
-   regime of the two LEFT variants (triangular_russian.c:50,206) are instantiated with the
-   substitution model; the [C04_generic_*] theorems show that the recursion is correct for ANY
-   routines meeting the specification there.  The middle regime of upper_right (extract_u, trtri,
-   multiply) is modelled and proven; it reads the stored diagonal, hence [diag_ones] in the
-   upper-right theorems ([C04_upper_right_reads_diagonal] shows the hypothesis is necessary, and
-   the C library behaves the same). *)
+   Abstractions (exactly): (a) mzd_addmul is taken by its specification C + A*B (property C01; note
+   that _mzd_trsm_upper_left hands the RAW cutoff to _mzd_addmul, triangular.c:503, whereas the
+   other three go through mzd_addmul which normalises it).
+   (b) Two families of models.  [trsm_XX_rec] (Alg/TRSM.v, the ones run against the library so far)
+   instantiate the <=64 word base cases and the Four-Russians middle regime of the LEFT variants
+   with the substitution model.  [trsm_XX_rec_f] (Alg/TRSMRec.v) plug in the sub-routines as the
+   C code computes them: the 64-dot-products base cases of the right variants
+   (triangular.c:262,361) and the table-driven middle regime of the left variants
+   (triangular_russian.c:50,206; tables through Alg/Gray.v make_table, any table parameter
+   k >= 1, fresh instead of reused tables).  Both families are proven equal to the substitution
+   models for every configuration, k and cutoff; the [C04_generic_*] theorems show that the
+   recursion is correct for ANY routines meeting the specification.  The left base cases are row
+   for row the substitution model.  The middle regime of upper_right (extract_u, trtri,
+   multiply) is modelled with [trtri_upper_simple] for mzd_trtri_upper (exact whenever
+   blocksize^2 < 2*L3, i.e. in every build) and proven; it reads the stored diagonal, hence
+   [diag_ones] in the upper-right theorems ([C04_upper_right_reads_diagonal] shows the hypothesis
+   is necessary, and the C library behaves the same). *)
 From Coq Require Import List NArith Arith Lia Bool.
 From M4 Require Import Base.Bits Lin.Mat Lin.MatAlg Lin.Ops Lin.Spec Lin.Tri Alg.TRSM Alg.TRSMProofs
-                       Alg.TRSMRecProofs.
+                       Alg.TRSMRec Alg.TRSMRecProofs.
 Import ListNotations.
 Local Open Scope nat_scope.
 
@@ -185,6 +194,47 @@ Theorem C04_upper_right_reads_diagonal :
 Proof. exact trsm_upper_right_rec_reads_diagonal. Qed.
 Print Assumptions C04_upper_right_reads_diagonal.
 
+(** * the sub-routines as the C code computes them meet the specification ... *)
+Theorem C04_upper_right_base : forall U B : mat, wf B -> nc B <= radix -> solves_ur U B (trsm_upper_right_base U B).
+Proof. exact trsm_upper_right_base_solves. Qed.
+Print Assumptions C04_upper_right_base.
+
+Theorem C04_lower_right_base : forall L B : mat, wf B -> nc B <= radix -> solves_lr L B (trsm_lower_right_base L B).
+Proof. exact trsm_lower_right_base_solves. Qed.
+Print Assumptions C04_lower_right_base.
+
+Theorem C04_lower_left_russian : forall (k : nat) (L B : mat), 1 <= k -> wf B ->
+  solves_ll L B (trsm_lower_left_russian k L B).
+Proof. exact trsm_lower_left_russian_solves. Qed.
+Print Assumptions C04_lower_left_russian.
+
+Theorem C04_upper_left_russian : forall (k : nat) (U B : mat), 1 <= k -> wf B ->
+  solves_ul U B (trsm_upper_left_russian k U B).
+Proof. exact trsm_upper_left_russian_solves. Qed.
+Print Assumptions C04_upper_left_russian.
+
+(** ... hence the recursive models over them return the substitution result as well *)
+Theorem C04_lower_left_rec_f : forall (c : cfg) (kk cutoff : nat) (L B : mat),
+  1 <= kk -> wf B -> nr B <= length (rows L) -> trsm_lower_left_rec_f c kk cutoff L B = trsm_lower_left L B.
+Proof. exact trsm_lower_left_rec_f_spec. Qed.
+Print Assumptions C04_lower_left_rec_f.
+
+Theorem C04_upper_left_rec_f : forall (c : cfg) (kk cutoff : nat) (U B : mat),
+  1 <= kk -> wf B -> nr B <= length (rows U) -> trsm_upper_left_rec_f c kk cutoff U B = trsm_upper_left U B.
+Proof. exact trsm_upper_left_rec_f_spec. Qed.
+Print Assumptions C04_upper_left_rec_f.
+
+Theorem C04_upper_right_rec_f : forall (c : cfg) (cutoff : nat) (U B : mat),
+  wf B -> nc B <= length (rows U) -> diag_ones (nc B) U ->
+  trsm_upper_right_rec_f c cutoff U B = trsm_upper_right U B.
+Proof. exact trsm_upper_right_rec_f_spec. Qed.
+Print Assumptions C04_upper_right_rec_f.
+
+Theorem C04_lower_right_rec_f : forall (c : cfg) (cutoff : nat) (L B : mat),
+  wf B -> nc B <= length (rows L) -> trsm_lower_right_rec_f c cutoff L B = trsm_lower_right L B.
+Proof. exact trsm_lower_right_rec_f_spec. Qed.
+Print Assumptions C04_lower_right_rec_f.
+
 (** * Non-vacuity: 130 x 130 storage matrices full of pseudo-random bits (both triangles and the
       diagonal are garbage; for upper_right the diagonal is set), right-hand sides 130 x 5 and
       5 x 130; configuration [c_rec] sends 130 rows into the recursion (split at 64: blocks of 64
@@ -200,16 +250,22 @@ Definition c_mid : cfg := mkcfg 2048 8388608 true.
 
 Example C04_hyps_left : wf T130 /\ wf Bl /\ nr T130 = nc T130 /\ nc T130 = nr Bl /\
   nr Bl <= length (rows T130) /\
-  get T130 0 0 = false /\ get T130 5 2 = true /\ get T130 2 5 = true (* garbage everywhere *).
-Proof. repeat split; try (apply wfb_spec; vm_compute; reflexivity); vm_compute; auto. Qed.
+  (* garbage on the diagonal and in both triangles *)
+  get T130 0 0 = false /\ get T130 8 8 = true /\ get T130 100 3 = true /\ get T130 3 101 = true.
+Proof.
+  split; [apply wfb_spec; vm_compute; reflexivity|]. split; [apply wfb_spec; vm_compute; reflexivity|].
+  vm_compute. auto 10.
+Qed.
 
 Example C04_hyps_right : wf T130d /\ wf Br /\ nr T130d = nc T130d /\ nr T130d = nc Br /\
-  nc Br <= length (rows T130d) /\ diag_ones (nc Br) T130d /\ get T130d 5 2 = true.
+  nc Br <= length (rows T130d) /\ diag_ones (nc Br) T130d /\
+  get T130d 100 3 = true /\ get T130d 3 101 = true.
 Proof.
-  assert (D : forall i, i < 130 -> get T130d i i = true).
-  { intros i Hi. assert (E : forallb (fun i => get T130d i i) (seq 0 130) = true) by (vm_compute; reflexivity).
-    rewrite forallb_forall in E. apply E. apply in_seq. lia. }
-  repeat split; try (apply wfb_spec; vm_compute; reflexivity); try (vm_compute; auto; fail). exact D.
+  split; [apply wfb_spec; vm_compute; reflexivity|]. split; [apply wfb_spec; vm_compute; reflexivity|].
+  split; [reflexivity|]. split; [reflexivity|]. split; [vm_compute; auto|].
+  split; [|vm_compute; auto].
+  intros i Hi. assert (E : forallb (fun i => get T130d i i) (seq 0 130) = true) by (vm_compute; reflexivity).
+  rewrite forallb_forall in E. apply E. apply in_seq. cbn [nc Br] in Hi. lia.
 Qed.
 
 (** the recursion and the middle regime are really entered, and the computed X satisfies the equation *)
@@ -232,3 +288,12 @@ Example C04_run_lower_right :
   mmul (trsm_lower_right_rec c_rec 0 T130 Br) (unit_lower 130 T130) = Br /\
   trsm_lower_right_rec c_rec 64 T130 Br = trsm_lower_right_rec c_mid 0 T130 Br.
 Proof. split; vm_compute; reflexivity. Qed.
+
+(** the faithful sub-routines really run: Four-Russians with k = 3 on 130 rows (5 blocks of 24 rows,
+    then blocks of 3, the last one of 1 row), dot-product base cases on the 64-column halves *)
+Example C04_run_f :
+  trsm_lower_left_rec_f c_mid 3 0 T130 Bl = trsm_lower_left T130 Bl /\
+  trsm_upper_left_rec_f c_mid 3 0 T130 Bl = trsm_upper_left T130 Bl /\
+  trsm_upper_right_rec_f c_rec 0 T130d Br = trsm_upper_right T130d Br /\
+  trsm_lower_right_rec_f c_rec 0 T130 Br = trsm_lower_right T130 Br.
+Proof. repeat split; vm_compute; reflexivity. Qed.
